@@ -1,4 +1,5 @@
 import EdzedProps.C01
+import EdzedProps.C02
 import EdzedProps.C09
 import EdzedProps.C14
 import EdzedProps.C16
